@@ -659,6 +659,10 @@ class Interp:
                 if fn in ("attrgetter", "itemgetter"):
                     return (fn, n.args[0].value)
                 raise ValueError
+            if isinstance(n, ast.Call) and isinstance(n.func, (ast.Name, ast.Attribute)) and len(n.args) > 1 and not n.keywords \
+                    and all(isinstance(a, ast.Constant) for a in n.args) \
+                    and (n.func.id if isinstance(n.func, ast.Name) else n.func.attr) == "itemgetter":
+                return ("itemgetter", tuple(a.value for a in n.args))
             if isinstance(n, ast.Tuple):
                 return ("tuple", tuple(ev(e) for e in n.elts))
             if isinstance(n, ast.List):
@@ -901,6 +905,9 @@ class Interp:
             return const(False if is_or else True)
         if len(keep) == 1:
             return keep[0]
+        if len(keep) == 2 and is_or and is_const(keep[1]) and not isinstance(keep[1][1], bool) and not self._boolean_term(keep[0]):
+            # ``value or <default constant>``
+            return mk_cond(keep[0], keep[0], keep[1])
         if len(keep) == 2 and self._boolean_term(keep[0]) and not self._boolean_term(keep[1]):
             # ``<test> and value`` / ``<test> or value`` selects a value: the conditional it abbreviates
             return mk_cond(keep[0], TRUE, keep[1]) if is_or else mk_cond(keep[0], keep[1], FALSE)
@@ -983,6 +990,15 @@ class Interp:
             return ("slice", base, lo, hi, stp)
         key = self.ev(st, n.slice, tree)
         return self.get_item(st, base, key)
+
+    def _scratch_tree(self) -> list:
+        """Effects of evaluations the statement walker has no tree for at hand go to the current frame's side list."""
+        act = self.stack[-1] if self.stack else None
+        if act is None:
+            return []
+        if not hasattr(act, "side"):
+            act.side = []
+        return act.side
 
     def get_slice(self, st, base, lo, hi):
         if base[0] == "cond":
@@ -1164,6 +1180,9 @@ class Interp:
                 # ``for pair in enumerate(xs)``: the pair of position and element (as in ``for n, x in enumerate(xs)``)
                 value = ("tuple", (("idx", lid), ("elem", lid)))
             st.env[tgt.id] = value
+        elif isinstance(tgt, (ast.Tuple, ast.List)) and isinstance(self.obj(value), HGen) and self.obj(value).fi is not None:
+            # unpacking consumes the generator
+            self.bind_target(st, tgt, self.force(value, st, self._scratch_tree(), None), lid, iter_term)
         elif isinstance(tgt, (ast.Tuple, ast.List)) and any(isinstance(e, ast.Starred) for e in tgt.elts):
             # ``first, *rest = xs`` / ``*init, last = xs``
             k = next(i for i, e in enumerate(tgt.elts) if isinstance(e, ast.Starred))
@@ -1265,6 +1284,8 @@ class Interp:
         if k == "attrgetter" and len(args) == 1 and isinstance(f[1], str):
             return self.get_attr(st, args[0], f[1], n, tree)
         if k == "itemgetter" and len(args) == 1:
+            if isinstance(f[1], tuple):
+                return ("tuple", tuple(self.get_item(st, args[0], const(x)) for x in f[1]))
             return self.get_item(st, args[0], const(f[1]))
         if k == "propobj":
             return ("opaque", "property object called")
@@ -1334,6 +1355,10 @@ class Interp:
                 for e in reversed(o.entries):
                     out = mk_cond(("cmp", "Eq", args[0], e[0]), e[1], out)
                 return out
+            if name == "get" and not kwargs and len(args) in (1, 2) and is_const(args[0]) and not isinstance(o, (HList, HInst, HGen)) \
+                    and not isinstance(o, HDict) and recv[0] not in ("regex", "module", "class", "extname"):
+                # mapping.get(k[, d]) on a dictionary the analyser does not hold: d when k is absent, else the item
+                return mk_cond(("cmp", "In", args[0], recv), ("item", recv, args[0]), args[1] if len(args) == 2 else NONE)
             if name == "copy" and not args:
                 return self.new_list([("s", recv)], n) if not isinstance(o, HDict) else self.new_dict([("**", recv)], n, tree)
             if name == "format":
@@ -1349,6 +1374,10 @@ class Interp:
         return ("call", "<dyn>", (f,) + tuple(args), tuple(sorted(kwargs.items())))
 
     def _callable_known(self, f) -> bool:
+        if isinstance(f, tuple) and f and f[0] == "builtin" and f[1] in ("str", "int", "len", "bool", "repr"):
+            return True
+        if isinstance(f, tuple) and f and f[0] == "extname" and f[1] in ("re.escape",):
+            return True
         return isinstance(f, tuple) and bool(f) and f[0] in ("func", "bound", "closure", "lambda", "partial", "attrgetter", "itemgetter", "class") \
             and (f[0] != "lambda" or len(f) > 3)
 
@@ -1510,7 +1539,40 @@ class Interp:
         def hook(v, gst, gtree, line, is_from=False):
             gtree.append(("mutate", L, "extend" if is_from else "append", (v,), line))
         self.run_generator(g, st, tree, hook, node)
+        self._straighten(L, g.tree)
         return L
+
+    def _straighten(self, L, gtree) -> None:
+        """A materialised generator whose yields all happen unconditionally, in a fixed order (an unrolled loop, a sequence of
+        yield statements): its elements become the list's literal elements."""
+        vals = []
+
+        def scan(nodes):
+            for n in nodes:
+                if n[0] == "mutate" and n[1] == L:
+                    if n[2] != "append":
+                        return False
+                    vals.append(n[3][0])
+                elif n[0] == "call":
+                    if not scan(n[2]):
+                        return False
+                elif n[0] in ("if", "loop", "try"):
+                    if any(m[0] == "mutate" and m[1] == L for m, _ in _iter_nodes(n[2] if n[0] != "try" else n[1])) or \
+                            (n[0] == "if" and any(m[0] == "mutate" and m[1] == L for m, _ in _iter_nodes(n[3]))):
+                        return False
+            return True
+
+        def strip(nodes):
+            nodes[:] = [n for n in nodes if not (n[0] == "mutate" and n[1] == L)]
+            for n in nodes:
+                if n[0] == "call":
+                    strip(n[2])
+
+        if gtree is not None and scan(gtree) and vals:
+            strip(gtree)
+            o = self.obj(L)
+            o.segs = [("e", v) for v in vals]
+            o.dirty = False
 
     def force_args(self, st, args, tree, node):
         out = []
@@ -1917,7 +1979,17 @@ class Interp:
                 ob_.dirty = True
             tree.append(("setitem", base, key, v, line))
         elif isinstance(tgt, (ast.Tuple, ast.List)):
-            if v[0] == "tuple" and len(v[1]) == len(tgt.elts):
+            if isinstance(self.obj(v), HGen) and self.obj(v).fi is not None:
+                v = self.force(v, st, tree, None)        # unpacking consumes the generator
+            if any(isinstance(e, ast.Starred) for e in tgt.elts):
+                k = next(i for i, e in enumerate(tgt.elts) if isinstance(e, ast.Starred))
+                after = len(tgt.elts) - k - 1
+                for i, e in enumerate(tgt.elts[:k]):
+                    self.assign(st, e, self.get_item(st, v, const(i)), tree, line)
+                self.assign(st, tgt.elts[k].value, self.get_slice(st, v, const(k), const(-after) if after else NONE), tree, line)
+                for j, e in enumerate(tgt.elts[k + 1:]):
+                    self.assign(st, e, self.get_item(st, v, const(j - after)), tree, line)
+            elif v[0] == "tuple" and len(v[1]) == len(tgt.elts):
                 for e, x in zip(tgt.elts, v[1]):
                     self.assign(st, e, x, tree, line)
             else:
@@ -2431,9 +2503,22 @@ class Interp:
             res.ret, res.retc = join_exit(res.ret, None, o.ret, None)
             res.brk, res.brkc = join_exit(res.brk, None, o.brk, None)
             res.cont, res.contc = join_exit(res.cont, None, o.cont, None)
-        if s.finalbody and res.live is not None:
-            o3 = self.exec_block(s.finalbody, res.live, tree)
-            res.live = o3.live
+        if s.finalbody:
+            # the finally part runs on every way out (fall-through, return, break, continue); its effects are recorded once
+            first = True
+            for kind in ("live", "ret", "brk", "cont"):
+                stx = getattr(res, kind)
+                if stx is None:
+                    continue
+                keep_ret = stx.env.get("__ret__")
+                o3 = self.exec_block(s.finalbody, stx, tree if first else [])
+                first = False
+                if o3.live is not None:
+                    if keep_ret is not None:
+                        o3.live.env["__ret__"] = keep_ret
+                    setattr(res, kind, o3.live)
+                if o3.ret is not None:       # a return inside finally overrides
+                    res.ret, res.retc = o3.ret, o3.retc
         return res
 
     def _handler_alternatives(self, tv, guards=()):
@@ -2520,6 +2605,20 @@ class Interp:
                 rv = mk_cond(out.retc if out.retc is not None else ("returned", act.id), rv, NONE)
         final = self._merge_exit(out.live, out.ret)
         return tree, rv, final
+
+
+def _iter_nodes(tree):
+    for n in tree:
+        yield n, None
+        if n[0] == "if":
+            yield from _iter_nodes(n[2])
+            yield from _iter_nodes(n[3])
+        elif n[0] in ("loop", "call"):
+            yield from _iter_nodes(n[2])
+        elif n[0] == "try":
+            yield from _iter_nodes(n[1])
+            for h in n[2]:
+                yield from _iter_nodes(h[2])
 
 
 def _draw_intrinsic(I: Interp, st, fi, args, kwargs, n, tree):
